@@ -10,6 +10,7 @@ ends in LF except possibly the last; FASTA sequence lines are arbitrary pieces o
 any header; FASTQ records are four lines with blank lines between records.
 -/
 import Biogo.Proofs.Fasta
+import Biogo.Proofs.Fastq
 
 namespace Biogo.Properties.C04_seq
 open Biogo.Go.Bytes Biogo.Spec.Seqio
@@ -54,5 +55,64 @@ example : readAll {} ([32, 13, 10] ++ [62, 120, 32, 100, 32, 101, 9, 13, 10] ++ 
     = [.ret ⟨some ⟨[120], [100, 32, 101], [97, 99, 103, 116]⟩, none⟩, .ret ⟨none, some .eof⟩] := by decide
 
 end fasta
+
+section fastq
+open Biogo.Fastq
+
+/-- **FASTQ layout independence** (`linear.QSeq`).  Two byte strings that hold the same
+    well-formed records (scores in the printable range of `enc`) as four-line records — with
+    or without blank lines between records, trailing blanks on any line, CRLF terminators, the
+    final newline (also when that makes the last, empty, quality line disappear), `+` alone or
+    with the header repeated — are read as the same call history: these records, then
+    `io.EOF`; for either behaviour of the `io.Reader` at the end of the input. -/
+theorem fastq_layout_independent (tabs : QTables) (enc : Encoding) (e₁ e₂ : Bool) (recs : List QRec)
+    (bs₁ bs₂ : Bytes) (hwf : ∀ r ∈ recs, wfFastq enc r = true)
+    (h₁ : FastqRenders (qlineOf tabs enc) recs bs₁) (h₂ : FastqRenders (qlineOf tabs enc) recs bs₂) :
+    readAll ⟨.qseq enc, tabs⟩ e₁ bs₁ = readAll ⟨.qseq enc, tabs⟩ e₂ bs₂ ∧
+    readAll ⟨.qseq enc, tabs⟩ e₁ bs₁ = recs.map (fun r => Call.ret ⟨some r, none⟩) ++ [Call.ret ⟨none, some .eof⟩] := by
+  have hok : ∀ r ∈ recs, RecOK (qlineOf tabs enc) r := fun r hr => (recOK_of_wf tabs enc r (hwf r hr)).1
+  have a := renders_read ⟨.qseq enc, tabs⟩ e₁ _ recs bs₁ hok h₁
+  have b := renders_read ⟨.qseq enc, tabs⟩ e₂ _ recs bs₂ hok h₂
+  refine ⟨a.trans b.symm, ?_⟩
+  rw [a]
+  congr 1
+  apply List.map_congr_left
+  intro r hr
+  simp only [retOK]
+  rw [built_qseq tabs enc r (recOK_of_wf tabs enc r (hwf r hr)).2]
+
+/-- the same for a plain `linear.Seq` template: the quality lines may be anything visible of
+    the right length (`ql`), the sequences returned carry no scores -/
+theorem fastq_layout_independent_plain (tabs : QTables) (ql : QRec → Bytes) (e₁ e₂ : Bool) (recs : List QRec)
+    (bs₁ bs₂ : Bytes) (hok : ∀ r ∈ recs, RecOK ql r)
+    (h₁ : FastqRenders ql recs bs₁) (h₂ : FastqRenders ql recs bs₂) :
+    readAll ⟨.seq, tabs⟩ e₁ bs₁ = readAll ⟨.seq, tabs⟩ e₂ bs₂ ∧
+    readAll ⟨.seq, tabs⟩ e₁ bs₁
+      = recs.map (fun r => Call.ret ⟨some { r with quals := [] }, none⟩) ++ [Call.ret ⟨none, some .eof⟩] := by
+  have a := renders_read ⟨.seq, tabs⟩ e₁ _ recs bs₁ hok h₁
+  have b := renders_read ⟨.seq, tabs⟩ e₂ _ recs bs₂ hok h₂
+  refine ⟨a.trans b.symm, ?_⟩
+  rw [a]
+  congr 1
+
+-- non-vacuity: `@x d / ac / +x d / I5` with CRLF, a blank line before it, trailing blanks and
+-- no final newline is a layout of the record (name `x`, description `d`, letters `ac`, scores 40, 20) …
+example : FastqRenders (qlineOf ⟨id, id⟩ .sanger) [⟨[120], [100], [97, 99], [40, 20]⟩]
+    ([13, 10] ++ [64, 120, 32, 100, 13, 10] ++ [97, 99, 32, 13, 10] ++ [43, 120, 32, 100, 13, 10] ++ [73, 53, 9]) := by
+  refine .inl ⟨[[13], [64, 120, 32, 100, 13], [97, 99, 32, 13], [43, 120, 32, 100, 13], [73, 53, 9]], ?_, ?_⟩
+  · refine .blank _ _ _ ⟨[13], rfl, by decide⟩ ?_
+    exact .record ⟨[120], [100], [97, 99], [40, 20]⟩ _ _ _ _ [] [] ⟨[13], rfl, by decide⟩ ⟨[32, 13], rfl, by decide⟩
+      (.inr ⟨[13], rfl, by decide⟩) ⟨[9], rfl, by decide⟩ .nil
+  · exact .lf [13] _ _ (by decide) (.lf _ _ _ (by decide) (.lf [97, 99, 32, 13] _ _ (by decide)
+      (.lf [43, 120, 32, 100, 13] _ _ (by decide) (.last _ (by decide) (by decide)))))
+-- … and so is `@x / (empty) / +` without the final newline (second alternative of `FastqRenders`)
+example : FastqRenders (qlineOf ⟨id, id⟩ .sanger) [⟨[120], [], [], []⟩] [64, 120, 10, 10, 43, 10] :=
+  .inr ⟨[[64, 120], [], [43]],
+    .record ⟨[120], [], [], []⟩ _ _ _ _ [] [] ⟨[], rfl, by decide⟩ ⟨[], rfl, by decide⟩
+      (.inl ⟨[], rfl, by decide⟩) ⟨[], rfl, by decide⟩ .nil, rfl⟩
+example : readAll ⟨.qseq .sanger, ⟨id, id⟩⟩ false [64, 120, 10, 10, 43, 10]
+    = [.ret ⟨some ⟨[120], [], [], []⟩, none⟩, .ret ⟨none, some .eof⟩] := by decide
+
+end fastq
 
 end Biogo.Properties.C04_seq
